@@ -173,8 +173,24 @@ class MetadataManager:
                 current: Optional[TableMetadata] = None
                 validated_from_hint = False
                 if self.storage.supports_cas:
-                    try:
-                        hint_bytes, hint_etag = self.storage.read_file_with_etag(self.HINT_PATH)
+                    for attempt in (0, 1):
+                        try:
+                            hint_bytes, hint_etag = self.storage.read_file_with_etag(self.HINT_PATH)
+                        except FileNotFoundError:
+                            hint_etag = None
+                            # Pointer LOST: restore it (create-if-absent, naming the
+                            # version recovery-by-scan finds) BEFORE anything new is
+                            # written, then take the normal hint+ETag path. Committing
+                            # straight from the scan made the commit point a bare
+                            # create-if-absent - it proves nobody created a pointer,
+                            # not that the validated version is still current - and
+                            # made this commit's own not-yet-committed metadata file
+                            # "the latest version" for every other scan: with a lock
+                            # that did not exclude, another committer built on it and
+                            # published a change whose commit then reported failure.
+                            if attempt == 0 and self._restore_lost_hint():
+                                continue
+                            break
                         parsed = self._parse_hint_content(hint_bytes)
                         if parsed is not None and self.storage.exists(
                             f"{self.metadata_path}/{parsed[1]}"
@@ -184,8 +200,7 @@ class MetadataManager:
                                 f"{self.metadata_path}/{previous_metadata_file}"
                             )
                             validated_from_hint = True
-                    except FileNotFoundError:
-                        hint_etag = None
+                        break
                 if not validated_from_hint:
                     current = self.refresh()
 
@@ -358,6 +373,25 @@ class MetadataManager:
             raise AmbiguousCommitError(
                 f"Version hint write failed ambiguously: {e}"
             ) from e
+
+    def _restore_lost_hint(self) -> bool:
+        """Re-create a missing version hint from the metadata files on storage.
+
+        Create-if-absent: losing the race to another restorer/committer is fine
+        (the caller re-reads the hint either way). Returns False when there is
+        no metadata file to point at. Any other failure propagates - nothing
+        has been written for the commit in progress yet.
+        """
+        from .storage_backend import CASConflictError
+
+        info = self._recover_version_from_files()
+        if info is None:
+            return False
+        try:
+            self.storage.write_file_cas(self.HINT_PATH, info[1].encode("utf-8"), None)
+        except CASConflictError:
+            pass
+        return True
 
     def _discard_uncommitted_metadata(self, metadata_path: str) -> None:
         """Best-effort removal of a metadata file whose commit cleanly failed."""
